@@ -273,9 +273,9 @@ class LinInterp(eir.Interp):
                     self.pending.append(p.decisions + [False])
                     d = True
                 elif t:
-                    return True
+                    d = True      # implied: recorded so that replays of a decision prefix stay aligned
                 elif f:
-                    return False
+                    d = False
                 else:
                     raise PathAbort()
                 p.decisions.append(d)
